@@ -41,11 +41,9 @@ Definition spec_step (b : bits) (op : mop) : res bits :=
   let len := zlen b in
   match op with
   | MInsert bs pos =>
-      if zlen bs =? 0 then Ok b else
       let p := norm_pos len pos in
       if (0 <=? p) && (p <=? len) then Ok (take p b ++ bs ++ drop p b) else Err ValueError
   | MOverwrite bs pos =>
-      if zlen bs =? 0 then Ok b else
       let p := norm_pos len pos in
       if (0 <=? p) && (p <=? len) then Ok (take p b ++ bs ++ drop (p + zlen bs) b) else Err ValueError
   | MAppend bs => Ok (b ++ bs)
